@@ -311,6 +311,23 @@ def run_tlc(files, module, cfg_text, workers=1, timeout=600, heap="2g", simulate
             shutil.rmtree(wd, ignore_errors=True)
 
 
+def run_apalache(spec_name, text, args, timeout=600):
+    """Runs apalache-mc check on a spec text in a scratch directory; returns (ok, tail of the output)."""
+    wd = scratch("verif-apa-")
+    try:
+        with open(os.path.join(wd, spec_name), "w") as f:
+            f.write(text)
+        try:
+            p = subprocess.run(["apalache-mc", "check"] + list(args) + ["--out-dir=" + os.path.join(wd, "out"), spec_name],
+                               cwd=wd, capture_output=True, text=True, timeout=timeout)
+        except subprocess.TimeoutExpired:
+            raise Machinery("apalache timed out on " + spec_name)
+        out = p.stdout + p.stderr
+        return ("EXITCODE: OK" in out and "NoError" in out), out[-1500:]
+    finally:
+        shutil.rmtree(wd, ignore_errors=True)
+
+
 # ------------------------------------------------------------------------------------------------
 # evidence / findings / verdicts
 
